@@ -219,7 +219,7 @@ class Pdur(FilterPattern):  # Was Pfindur.
         delta = next_elapsed = remaining = None
         try:
             while True:
-                inevent = stream.next(inevent)
+                inevent = evt.event(stream.next(inevent))  # as_event
                 delta = inevent('delta')
                 next_elapsed = elapsed + float(delta)
                 if bi.roundup(next_elapsed, tolerance) >= local_dur:
